@@ -73,7 +73,7 @@ func NewSimpleURL(u *url.URL) (SimpleURL, error) {
 			}
 		case name == "filter":
 			var err error
-			if values.Get(name)[0] != '{' {
+			if !strings.HasPrefix(values.Get(name), "{") {
 				// It should be a label
 				err = json.Unmarshal([]byte("\""+values.Get(name)+"\""), &sURL.FilterLabel)
 			} else {
